@@ -239,6 +239,38 @@ static void full_roundtrip(Out &o, Rng &r, const GeometryMetadata &g, const std:
   if (print_geom(*got) != text) o.fail(tag + "metadata altered by the round trip: in=" + brief(text) + " out=" + brief(print_geom(*got)));
 }
 
+// per-attribute metadata is keyed by the attribute's UNIQUE ID: geometries whose attributes carry application-chosen unique ids (not
+// their indices), in an order the coder may change, must come back with every attribute findable under its id and with its own metadata
+static void attribute_metadata_roundtrip(Out &o, Rng &r, int which) {
+  const bool is_mesh = which >= 2; std::unique_ptr<PointCloud> pc; Mesh *mesh = nullptr; if (is_mesh) { mesh = new Mesh(); pc.reset(mesh); } else pc.reset(new PointCloud());
+  const int n = 6; pc->set_num_points(n);
+  struct A { GeometryAttribute::Type t; int nc; DataType dt; uint32_t uid; std::string meta; }; std::vector<A> as;
+  static const GeometryAttribute::Type ts[] = {GeometryAttribute::NORMAL, GeometryAttribute::COLOR, GeometryAttribute::TEX_COORD, GeometryAttribute::GENERIC};
+  int na = (int)r.range(2, 4), pos_at = (int)r.below(na); std::vector<uint32_t> ids = {7, 42, 3, 19, 100, 1, 0, 2}; for (int i = (int)ids.size() - 1; i > 0; i--) std::swap(ids[i], ids[r.below(i + 1)]);
+  for (int a = 0; a < na; a++) { A x; x.t = a == pos_at ? GeometryAttribute::POSITION : ts[r.below(4)]; x.nc = x.t == GeometryAttribute::TEX_COORD ? 2 : (x.t == GeometryAttribute::GENERIC ? 1 : 3);
+    x.dt = (x.t == GeometryAttribute::COLOR) ? DT_UINT8 : (x.t == GeometryAttribute::GENERIC ? DT_INT32 : DT_FLOAT32); x.uid = ids[a];
+    GeometryAttribute ga; ga.Init(x.t, nullptr, (uint8_t)x.nc, x.dt, false, (int64_t)DataTypeLength(x.dt) * x.nc, 0); int id = pc->AddAttribute(ga, true, n); pc->attribute(id)->set_unique_id(x.uid);
+    for (int p = 0; p < n; p++) { uint8_t buf[16] = {0}; for (int c = 0; c < x.nc; c++) { if (x.dt == DT_FLOAT32) { float f = x.t == GeometryAttribute::NORMAL ? (c == p % 3 ? 1.f : 0.f) : (float)((p * (c + 2) + a) % 7) / 3.f + (c == 0 ? (float)p : 0.f); memcpy(buf + 4 * c, &f, 4); } else if (x.dt == DT_INT32) { int32_t v = p * 3 - a; memcpy(buf + 4 * c, &v, 4); } else buf[c] = (uint8_t)(p * 40 + c); }
+      pc->attribute(id)->SetAttributeValue(AttributeValueIndex(p), buf); }
+    if (r.chance(75)) { std::unique_ptr<AttributeMetadata> am(new AttributeMetadata()); am->AddEntryString("owner", "uid" + U(x.uid)); am->AddEntryInt("type", (int)x.t); if (r.chance(40)) { std::unique_ptr<Metadata> sub(new Metadata()); sub->AddEntryInt("deep", (int)x.uid * 2); am->AddSubMetadata("s", std::move(sub)); }
+      x.meta = print_meta(*am); pc->AddAttributeMetadata(id, std::move(am)); }
+    as.push_back(x); }
+  if (is_mesh) { Mesh::Face f; f[0] = PointIndex(0); f[1] = PointIndex(1); f[2] = PointIndex(2); mesh->AddFace(f); f[0] = PointIndex(1); f[1] = PointIndex(3); f[2] = PointIndex(2); mesh->AddFace(f); f[0] = PointIndex(3); f[1] = PointIndex(4); f[2] = PointIndex(5); mesh->AddFace(f); }
+  static const int methods[] = {POINT_CLOUD_SEQUENTIAL_ENCODING, POINT_CLOUD_KD_TREE_ENCODING, MESH_SEQUENTIAL_ENCODING, MESH_EDGEBREAKER_ENCODING};
+  Encoder enc; enc.SetEncodingMethod(methods[which]); int speed = (int)r.below(11); enc.SetSpeedOptions(speed, speed);
+  enc.SetAttributeQuantization(GeometryAttribute::POSITION, 11); enc.SetAttributeQuantization(GeometryAttribute::NORMAL, 8); enc.SetAttributeQuantization(GeometryAttribute::TEX_COORD, 10);
+  EncoderBuffer eb; Status s = is_mesh ? enc.EncodeMeshToBuffer(*mesh, &eb) : enc.EncodePointCloudToBuffer(*pc, &eb);
+  std::string tag = "attmeta method=" + S(methods[which]) + " speed=" + S(speed) + " uids="; for (auto &x : as) tag += U(x.uid) + "/" + S((int)x.t) + ","; tag += " ";
+  if (!s.ok()) { o.fail(tag + "encode of a valid geometry with attribute metadata failed: " + s.error_msg()); return; }
+  DecoderBuffer db; db.Init(eb.data(), eb.size()); Decoder dec; std::unique_ptr<PointCloud> out;
+  if (is_mesh) { auto so = dec.DecodeMeshFromBuffer(&db); if (so.ok()) out.reset(std::move(so).value().release()); } else { auto so = dec.DecodePointCloudFromBuffer(&db); if (so.ok()) out = std::move(so).value(); }
+  if (!out) { o.fail(tag + "encode ok but decode failed"); return; }
+  for (auto &x : as) { int idx = out->GetAttributeIdByUniqueId(x.uid);
+    if (idx < 0 || out->attribute(idx)->attribute_type() != x.t) { o.fail(tag + "attribute with unique id " + U(x.uid) + " not found under its id (or under another type) after decoding"); continue; }
+    const AttributeMetadata *am = out->GetAttributeMetadataByAttributeId(idx); std::string got = am ? print_meta(*am) : std::string();
+    if (got != x.meta) o.fail(tag + "metadata of attribute " + U(x.uid) + " altered / lost / attached to another attribute: in=" + brief(x.meta) + " out=" + brief(got)); }
+}
+
 static std::vector<std::vector<uint8_t>> valid_streams;  // small valid streams kept as seeds for corruption
 
 static void menc_case(Out &o, Rng &r, const GeometryMetadata &g, int maxdepth, bool full) {
@@ -397,6 +429,8 @@ int main(int argc, char **argv) {
   Out o(argv[3]);
   o.note("C11 tier=" + std::string(argv[1]) + " seed=" + argv[2]);
 
+  // 0. attribute metadata keyed by application-chosen unique ids, all four methods
+  for (int i = 0; i < (thorough ? 4000 : 400); i++) attribute_metadata_roundtrip(o, r, i % 4);
   // 1. random trees: encoder correspondence + direct round trip + full geometry round trips
   int ntrees = thorough ? 12000 : 2500;
   for (int i = 0; i < ntrees; i++) {
